@@ -45,3 +45,44 @@ fn c13_q_gcd_zero_rules() {
     let z = BigUint::ZERO;
     kani::assert(vc::eq_window(vc::digits(&a.gcd(&z)), &a0) && vc::eq_window(vc::digits(&z.gcd(&a)), &a0) && z.gcd(&z).is_zero(), "VERIF gcd zero rules");
 }
+
+// Stein gcd on operands whose low WORD is zero: the common power of two spans a digit boundary (>= 64 trailing zeros),
+// the odd parts are narrow (thorough tier only: the unrolled Stein loop did not finish within 600 s even on near-concrete operands). Word counts of the shifts are case-split (0 / 1), bit counts symbolic.
+macro_rules! gcd_low_zero_shape {
+    ($name:ident, $bits:expr, $kmax:expr, $unw:expr) => {
+        #[kani::proof]
+        #[kani::unwind($unw)]
+        #[kani::stub(alloc::vec::Vec::shrink_to_fit, vc::noop_shrink)]
+        #[kani::stub(core::arch::x86_64::_subborrow_u64, vc::stub_subborrow)]
+        #[kani::stub(crate::biguint::subtraction::schoolbook_sub_assign_x86_64, vc::model_sub)]
+        #[kani::stub(crate::biguint::shift::biguint_shr, crate::biguint::shift::verif_c07_biguint_shift::shr_split01)]
+        #[kani::stub(crate::biguint::shift::biguint_shl, crate::biguint::shift::verif_c07_biguint_shift::shl_split01)]
+        fn $name() {
+            let x: u64 = kani::any();
+            let y: u64 = kani::any();
+            let kx: u32 = kani::any();
+            let ky: u32 = kani::any();
+            kani::assume(x & 1 == 1 && x < (1 << $bits) && y & 1 == 1 && y < (1 << $bits) && kx <= $kmax && ky <= $kmax);
+            let g = vc::mk_from(&[0, x << kx]).gcd(&vc::mk_from(&[0, y << ky]));
+            let k = if kx < ky { kx } else { ky };
+            kani::cover!(kx != ky && x != y, "reach: distinct odd parts and distinct powers of two");
+            kani::assert(vc::is_canonical(&g) && vc::eq_window(vc::digits(&g), &[0, gcd_small(x, y) << k]), "VERIF Stein gcd loses the common power of two across a digit boundary");
+        }
+    };
+}
+gcd_low_zero_shape!(c13_t_gcd_low_zero_2bit, 2, 3, 8);
+gcd_low_zero_shape!(c13_t_gcd_low_zero_3bit, 3, 7, 10);
+// is_multiple_of with a zero left operand: zero is a multiple of everything (the division early-exits on a zero dividend)
+macro_rules! zero_multiple_shape {
+    ($name:ident, $l:expr) => {
+        #[kani::proof]
+        #[kani::unwind(34)]
+        fn $name() {
+            let d0: [u64; $l] = vc::any_canon::<$l>();
+            let d = vc::mk_from(&d0);
+            kani::assert(BigUint::ZERO.is_multiple_of(&d), "VERIF 0.is_multiple_of(d) is false");
+        }
+    };
+}
+zero_multiple_shape!(c13_q_zero_multiple_1, 1);
+zero_multiple_shape!(c13_q_zero_multiple_2, 2);
